@@ -574,7 +574,7 @@ Lemma exec_loop_cons : forall W t it body v rest q,
   | Some (true, q1) =>
       match sbind t v (st_store q1) with
       | Some s' =>
-          match exec_block W body (mkSt s' (st_own q1) (st_trace q1)) with
+          match exec_block W body (mkSt s' (fold_left rebind_own (tgt_names t) (st_own q1)) (st_trace q1)) with
           | Some (ONormal, q2) | Some (OCont, q2) => exec_loop W t it body rest q2
           | Some (OBreak, q2) => Some (ONormal, q2)
           | r => r
@@ -976,3 +976,342 @@ Theorem merge_block_sound : forall W r b q res,
   (forall x, blind W x) ->
   exec_block W b q = Some res -> exec_block W (merge_block r b) q = Some res.
 Proof. intros W r b q res Hb He. apply (scan_sound_gen W r b None []); [assumption|reflexivity|exact He]. Qed.
+
+(* the guards are satisfiable: a block on which the pass folds three statements *)
+Example merge_block_example :
+  merge_block MCollAdd
+    [SAssign 1 (ESeq KList [EConst (AInt 1)]); SMeth 1 MAppend [ECall 0 []];
+     SMeth 1 MExtend [ESeq KTuple [EName 2; EStar (EName 3)]]; SMeth 1 MAppend [EName 1]; SExpr (EName 1)]
+  = [SAssign 1 (ESeq KList [EConst (AInt 1); ECall 0 []; EName 2; EStar (EName 3)]);
+     SMeth 1 MAppend [EName 1]; SExpr (EName 1)].
+Proof. reflexivity. Qed.
+
+Example merge_dict_example :
+  merge_block MDictAssign
+    [SAssign 1 (EDict [EKV (EConst (AInt 1)) (EConst (AInt 2))]); SSetItem 1 (EConst (ABool true)) (ECall 0 []);
+     SSetItem 1 (ECall 0 []) (ECall 4 []); SSetItem 1 (EConst (AInt 3)) (EConst (AInt 4))]
+  = [SAssign 1 (EDict [EKV (EConst (AInt 1)) (EConst (AInt 2)); EKV (EConst (ABool true)) (ECall 0 [])]);
+     SSetItem 1 (ECall 0 []) (ECall 4 []); SSetItem 1 (EConst (AInt 3)) (EConst (AInt 4))].
+Proof. reflexivity. Qed.
+
+(* Without `blind`: a callee that reads the variable being built (F02coll-1).  f5 returns len(v1). *)
+Theorem merge_refuted_global_reader :
+  exists W r b q res, exec_block W b q = Some res /\ merge_block r b <> b /\
+                      exec_block W (merge_block r b) q <> Some res.
+Proof.
+  exists test_worlds, MDictAssign,
+    [SAssign 1 (EDict []); SSetItem 1 (EConst (AInt 1)) (ECall 5 [])],
+    (mkSt [(1%nat, VList [VInt 9; VInt 9])] None []).
+  eexists. split; [vm_compute; reflexivity|]. split; vm_compute; discriminate.
+Qed.
+
+(* The rules before the repairs (every world, also a constant one) *)
+Theorem merge_old_refuted_self_read :
+  exists r b q res, exec_block (fun _ => test_world) b q = Some res /\
+                    exec_block (fun _ => test_world) (scan_old r None b) q <> Some res.
+Proof.
+  exists MDictAssign, [SAssign 1 (EDict []); SSetItem 1 (EConst (AInt 1)) (EBi BLen [EName 1])],
+    (mkSt [(1%nat, VList [VInt 9; VInt 9])] None []).
+  eexists. split; [vm_compute; reflexivity|]. vm_compute. discriminate.
+Qed.
+
+Theorem merge_old_refuted_order :
+  exists r b q res, exec_block (fun _ => test_world) b q = Some res /\
+                    exec_block (fun _ => test_world) (scan_old r None b) q <> Some res.
+Proof.
+  exists MDictAssign, [SAssign 1 (EDict []); SSetItem 1 (ECall 0 []) (ECall 4 [])], (mkSt [] None []).
+  eexists. split; [vm_compute; reflexivity|]. vm_compute. discriminate.
+Qed.
+
+(* =========================================================================================== *)
+(* fixes.breakout_starred_args *)
+
+Lemma elts_as_args : forall w en l tr vs t,
+  eval_elts (eval w) en l tr = Some (vs, t) ->
+  eval_args (eval w) en l tr = Some (map (fun x => (None, x)) vs, t).
+Proof.
+  intros w en. induction l as [|a l IH]; intros tr vs t H.
+  - cbn in H. injection H as <- <-. reflexivity.
+  - assert (Hgen : match eval w a en tr with
+                   | Some (v, tr1) => match eval_elts (eval w) en l tr1 with
+                                      | Some (rest, tr2) => Some (v :: rest, tr2) | None => None end
+                   | None => None end = Some (vs, t) ->
+                   match eval w a en tr with
+                   | Some (v, tr1) => match eval_args (eval w) en l tr1 with
+                                      | Some (rest, tr2) => Some ((None, v) :: rest, tr2) | None => None end
+                   | None => None end = Some (map (fun x => (None, x)) vs, t)).
+    { intros H0. destruct (eval w a en tr) as [[v tr1]|]; [|discriminate].
+      destruct (eval_elts (eval w) en l tr1) as [[rest tr2]|] eqn:E; [|discriminate]. injection H0 as <- <-.
+      rewrite (IH _ _ _ E). reflexivity. }
+    destruct a; try (apply Hgen; exact H).
+    + cbn [eval_elts] in H. cbn [eval_args].
+      destruct (eval w a en tr) as [[v tr1]|]; [|discriminate]. destruct (items_of v) as [its|]; [|discriminate].
+      destruct (eval_elts (eval w) en l tr1) as [[rest tr2]|] eqn:E; [|discriminate]. injection H as <- <-.
+      rewrite (IH _ _ _ E), map_app. reflexivity.
+    + cbn [eval_elts] in H. cbn in H. discriminate.
+Qed.
+
+Lemma eval_args_app : forall ev en l1 l2 tr,
+  eval_args ev en (l1 ++ l2) tr =
+  match eval_args ev en l1 tr with
+  | Some (vs1, tr1) => match eval_args ev en l2 tr1 with
+                       | Some (vs2, tr2) => Some (vs1 ++ vs2, tr2)
+                       | None => None
+                       end
+  | None => None
+  end.
+Proof.
+  intros ev en. induction l1 as [|a l1 IH]; intros l2 tr.
+  - cbn. destruct (eval_args ev en l2 tr) as [[vs2 tr2]|]; reflexivity.
+  - cbn [app]. destruct a; cbn [eval_args];
+      try (destruct (ev _ en tr) as [[v tr1]|]; [|reflexivity]; rewrite IH;
+           destruct (eval_args ev en l1 tr1) as [[r1 t1]|]; [|reflexivity];
+           destruct (eval_args ev en l2 t1) as [[r2 t2]|]; reflexivity).
+    destruct (ev a en tr) as [[v tr1]|]; [|reflexivity]. destruct (items_of v) as [its|]; [|reflexivity].
+    rewrite IH. destruct (eval_args ev en l1 tr1) as [[r1 t1]|]; [|reflexivity].
+    destruct (eval_args ev en l2 t1) as [[r2 t2]|]; [|reflexivity]. rewrite app_assoc. reflexivity.
+Qed.
+
+Definition piece (a : expr) : list expr := match splice_arg a with Some l => l | None => [a] end.
+
+Lemma piece_elts : forall w en a tr r,
+  eval_elts (eval w) en [a] tr = Some r -> eval_elts (eval w) en (piece a) tr = Some r.
+Proof.
+  intros w en a tr r H. unfold piece. destruct (splice_arg a) as [l|] eqn:Hs; [|exact H].
+  destruct a; try discriminate. destruct a; try discriminate. cbn [eval_elts] in H. rewrite eval_ESeq in H.
+  destruct k; cbn [splice_arg] in Hs.
+  - injection Hs as <-. destruct (eval_elts (eval w) en elts tr) as [[vs t]|]; [|discriminate].
+    cbn in H. rewrite app_nil_r in H. exact H.
+  - injection Hs as <-. destruct (eval_elts (eval w) en elts tr) as [[vs t]|]; [|discriminate].
+    cbn in H. rewrite app_nil_r in H. exact H.
+  - destruct elts as [|x [|]]; try discriminate. destruct (is_star x) eqn:Hx; [discriminate|]. injection Hs as <-.
+    destruct (eval_elts (eval w) en [x] tr) as [[vs t]|] eqn:E; [|discriminate].
+    assert (exists v, vs = [v]) as [v ->].
+    { destruct x; try discriminate; cbn [eval_elts] in E;
+        match type of E with context [eval w ?e en tr] => destruct (eval w e en tr) as [[v0 tt0]|] end;
+        try discriminate; injection E as <- _; eauto. }
+    unfold mkset in H. cbn [forallb] in H. destruct (hashable v); [|discriminate]. cbn in H. exact H.
+Qed.
+
+Lemma splice_elts : forall w en args tr r,
+  eval_elts (eval w) en args tr = Some r -> eval_elts (eval w) en (splice_args args) tr = Some r.
+Proof.
+  intros w en. induction args as [|a args IH]; intros tr r H; [exact H|].
+  change (a :: args) with ([a] ++ args) in H. rewrite eval_elts_app in H.
+  unfold splice_args. cbn [flat_map]. fold (piece a). fold (splice_args args). rewrite eval_elts_app.
+  destruct (eval_elts (eval w) en [a] tr) as [[vs1 tr1]|] eqn:E; [|discriminate].
+  rewrite (piece_elts _ _ _ _ _ E).
+  destruct (eval_elts (eval w) en args tr1) as [[vs2 tr2]|] eqn:E2; [|discriminate].
+  rewrite (IH _ _ E2). exact H.
+Qed.
+
+Lemma piece_args : forall w en a tr r,
+  eval_args (eval w) en [a] tr = Some r -> eval_args (eval w) en (piece a) tr = Some r.
+Proof.
+  intros w en a tr r H. unfold piece. destruct (splice_arg a) as [l|] eqn:Hs; [|exact H].
+  assert (He : exists vs t, eval_elts (eval w) en [a] tr = Some (vs, t) /\ r = (map (fun x => (None, x)) vs, t)).
+  { destruct a; try discriminate. cbn [eval_args] in H. cbn [eval_elts].
+    destruct (eval w a en tr) as [[v t]|]; [|discriminate]. destruct (items_of v) as [its|]; [|discriminate].
+    cbn in H. injection H as <-. exists (its ++ []), t. rewrite map_app. split; reflexivity. }
+  destruct He as [vs [t [He ->]]].
+  apply elts_as_args. pose proof (piece_elts _ _ _ _ _ He) as Hp. unfold piece in Hp. rewrite Hs in Hp. exact Hp.
+Qed.
+
+Lemma splice_args_sound : forall w en args tr r,
+  eval_args (eval w) en args tr = Some r -> eval_args (eval w) en (splice_args args) tr = Some r.
+Proof.
+  intros w en. induction args as [|a args IH]; intros tr r H; [exact H|].
+  change (a :: args) with ([a] ++ args) in H. rewrite eval_args_app in H.
+  unfold splice_args. cbn [flat_map]. fold (piece a). fold (splice_args args). rewrite eval_args_app.
+  destruct (eval_args (eval w) en [a] tr) as [[vs1 tr1]|] eqn:E; [|discriminate].
+  rewrite (piece_args _ _ _ _ _ E).
+  destruct (eval_args (eval w) en args tr1) as [[vs2 tr2]|] eqn:E2; [|discriminate].
+  rewrite (IH _ _ E2). exact H.
+Qed.
+
+Theorem starargs_sound : forall w e e' en tr r,
+  rw_starargs e = Some e' -> eval w e en tr = Some r -> eval w e' en tr = Some r.
+Proof.
+  intros w e e' en tr r Hrw He. destruct e; try discriminate; cbn [rw_starargs] in Hrw;
+    destruct (existsb _ args); try discriminate; injection Hrw as <-.
+  - cbn [eval] in *. destruct (eval_elts (eval w) en args tr) as [[vs tr1]|] eqn:E; [|discriminate].
+    rewrite (splice_elts _ _ _ _ _ E). exact He.
+  - rewrite eval_EBi in *. destruct (eval_args (eval w) en args tr) as [[vs tr1]|] eqn:E; [|discriminate].
+    rewrite (splice_args_sound _ _ _ _ _ E). exact He.
+Qed.
+
+(* the rule before the repair unpacked `*{*a}` too *)
+Theorem starargs_old_refuted :
+  exists e e' en, eval test_world e en [] <> None /\ eval test_world e' en [] <> eval test_world e en [] /\
+    e = ECall 4 [EStar (ESeq KSet [EStar (EName 2)])] /\ e' = ECall 4 [EStar (EName 2)].
+Proof.
+  exists (ECall 4 [EStar (ESeq KSet [EStar (EName 2)])]), (ECall 4 [EStar (EName 2)]),
+    (mkenv [(2%nat, VList [VInt 1; VInt 1])]).
+  repeat split; vm_compute; discriminate.
+Qed.
+
+(* =========================================================================================== *)
+(* fixes.replace_with_filter *)
+
+(* states that differ at most in the binding (and ownership) of x *)
+Definition xequiv (x : nat) (q1 q2 : state) : Prop :=
+  (forall v, sset (st_store q1) x v = sset (st_store q2) x v) /\
+  rebind_own (st_own q1) x = rebind_own (st_own q2) x /\ st_trace q1 = st_trace q2.
+
+Definition res_rel (x : nat) (r1 r2 : option (outcome * state)) : Prop :=
+  match r1, r2 with
+  | Some (o1, q1), Some (o2, q2) => o1 = o2 /\ xequiv x q1 q2
+  | None, None => True
+  | _, _ => False
+  end.
+
+Lemma xequiv_refl : forall x q, xequiv x q q.
+Proof. intros x q. repeat split. Qed.
+
+Lemma res_rel_refl : forall x r, res_rel x r r.
+Proof. intros x [[o q]|]; cbn; [split; [reflexivity | apply xequiv_refl] | exact I]. Qed.
+
+Lemma rebind_idem : forall o x, rebind_own (rebind_own o x) x = rebind_own o x.
+Proof. intros [y|] x; cbn; [|reflexivity]. destruct (Nat.eqb y x) eqn:E; cbn; [reflexivity | rewrite E; reflexivity]. Qed.
+
+Lemma read_own_rebound : forall o x c, (forall y, y <> x -> mentions y c = false) ->
+  read_own (rebind_own o x) [c] = rebind_own o x.
+Proof.
+  intros [y|] x c H; cbn; [|reflexivity]. destruct (Nat.eqb y x) eqn:E; cbn; [reflexivity|].
+  apply Nat.eqb_neq in E. rewrite (H y E). reflexivity.
+Qed.
+
+Lemma filter_test_mentions : forall x c f, filter_test x c = Some f -> forall y, y <> x -> mentions y c = false.
+Proof.
+  intros x c f H y Hy. destruct c; try discriminate; cbn in H.
+  - destruct (Nat.eqb x x0) eqn:E; [|discriminate]. apply Nat.eqb_eq in E. subst x0. cbn. apply Nat.eqb_neq. congruence.
+  - destruct args as [|[] [|]]; try discriminate. destruct (Nat.eqb x x0) eqn:E; [|discriminate].
+    apply Nat.eqb_eq in E. subst x0. cbn. rewrite orb_false_r. apply Nat.eqb_neq. congruence.
+Qed.
+
+(* the test `c` on the freshly bound loop variable = the test of filter(f, ..) on the item *)
+Lemma filter_test_eval : forall W x c f s v o tr,
+  filter_test x c = Some f -> blind W x ->
+  match eval (W (sset s x v)) c (sget (sset s x v)) tr with
+  | Some (cv, tr1) => Some (truthy cv, tr1)
+  | None => None
+  end =
+  match accept W (IFilter f (EConst ANone)) v (mkSt s o tr) with
+  | Some (b, q) => Some (b, st_trace q)
+  | None => None
+  end.
+Proof.
+  intros W x c f s v o tr H Hb. destruct c; try discriminate; cbn in H.
+  - destruct (Nat.eqb x x0) eqn:E; [|discriminate]. apply Nat.eqb_eq in E. subst x0. injection H as <-.
+    cbn. rewrite sget_sset_same. reflexivity.
+  - destruct args as [|[] [|]]; try discriminate. destruct (Nat.eqb x x0) eqn:E; [|discriminate].
+    apply Nat.eqb_eq in E. subst x0. injection H as <-.
+    cbn. rewrite sget_sset_same, Hb. destruct (call_or (W s) tr f0 [v]); reflexivity.
+Qed.
+
+Lemma accept_filter_state : forall W f e1 e2 v q, accept W (IFilter f e1) v q = accept W (IFilter f e2) v q.
+Proof. reflexivity. Qed.
+
+Lemma accept_filter_shape : forall W f e v q b q', accept W (IFilter f e) v q = Some (b, q') ->
+  st_store q' = st_store q /\ st_own q' = st_own q.
+Proof.
+  intros W f e v q b q' H. destruct f; cbn in H.
+  - destruct (call_or _ _ _ _); [|discriminate]. injection H as _ <-. split; reflexivity.
+  - injection H as _ <-. split; reflexivity.
+Qed.
+
+Section FilterLoop.
+  Variables (W : worlds) (x : nat) (e : expr) (c : expr) (f : option nat) (s1 : stmt) (neg : bool).
+  Hypothesis Hft : filter_test x c = Some f.
+  Hypothesis Hb : blind W x.
+
+  Definition orig_body : list stmt :=
+    if neg then [SIf (ENot c) [SCont] []; s1] else [SIf c [s1] []].
+
+  (* the original body, once the loop variable is bound: the test, then s1 or nothing *)
+  Lemma orig_body_exec : forall s v o tr,
+    exec_block W orig_body (mkSt (sset s x v) (rebind_own o x) tr) =
+    match eval (W (sset s x v)) c (sget (sset s x v)) tr with
+    | Some (cv, tr1) =>
+        if truthy cv then exec_block W [s1] (mkSt (sset s x v) (rebind_own o x) tr1)
+        else Some (if neg then OCont else ONormal, mkSt (sset s x v) (rebind_own o x) tr1)
+    | None => None
+    end.
+  Proof.
+    intros s v o tr. unfold orig_body. destruct neg.
+    - rewrite exec_block_cons, exec_SIf. unfold eval_in. cbn [st_store st_trace st_own eval].
+      destruct (eval (W (sset s x v)) c (sget (sset s x v)) tr) as [[cv tr1]|]; [|reflexivity].
+      cbn [truthy]. assert (Hr : read_own (rebind_own o x) [ENot c] = rebind_own o x).
+      { apply read_own_rebound. intros y Hy. cbn. exact (filter_test_mentions _ _ _ Hft y Hy). }
+      rewrite Hr. destruct (truthy cv); cbn [negb]; reflexivity.
+    - rewrite exec_block_cons, exec_SIf. unfold eval_in. cbn [st_store st_trace st_own].
+      destruct (eval (W (sset s x v)) c (sget (sset s x v)) tr) as [[cv tr1]|]; [|reflexivity].
+      rewrite (read_own_rebound _ _ _ (filter_test_mentions _ _ _ Hft)).
+      destruct (truthy cv).
+      + destruct (exec_block W [s1] _) as [[[] q']|]; reflexivity.
+      + reflexivity.
+  Qed.
+
+  Lemma filter_loop : forall items q1 q2, xequiv x q1 q2 ->
+    res_rel x (exec_loop W (TName x) (IPlain e) orig_body items q1)
+              (exec_loop W (TName x) (IFilter f e) [s1] items q2).
+  Proof.
+    induction items as [|v items IH]; intros q1 q2 Hq.
+    - cbn. split; [reflexivity | exact Hq].
+    - rewrite !exec_loop_cons. destruct q1 as [st1 o1 tr1], q2 as [st2 o2 tr2].
+      destruct Hq as [Hs [Ho Ht]]. cbn [st_store st_own st_trace] in *. subst tr2.
+      change (accept W (IPlain e) v (mkSt st1 o1 tr1)) with (Some (true, mkSt st1 o1 tr1)).
+      cbn [sbind tgt_names fold_left st_store st_own st_trace].
+      rewrite orig_body_exec.
+      pose proof (filter_test_eval W x c f st2 v o2 tr1 Hft Hb) as Ht. rewrite <- (Hs v) in Ht.
+      rewrite (accept_filter_state W f e (EConst ANone)).
+      destruct (eval (W (sset st1 x v)) c (sget (sset st1 x v)) tr1) as [[cv tr']|].
+      + destruct (accept W (IFilter f (EConst ANone)) v (mkSt st2 o2 tr1)) as [[b q']|] eqn:Ea; [|discriminate].
+        destruct (accept_filter_shape _ _ _ _ _ _ _ Ea) as [Hst Hown]. destruct q' as [st' o' tr'']. cbn in Hst, Hown, Ht.
+        subst st' o'. injection Ht as <- <-.
+        destruct (truthy cv).
+        * cbn [sbind st_store st_own st_trace fold_left tgt_names]. rewrite <- (Hs v), <- Ho.
+          destruct (exec_block W [s1] (mkSt (sset st1 x v) (rebind_own o1 x) tr')) as [[[] q3]|];
+            try (apply IH, xequiv_refl); try apply res_rel_refl.
+        * assert (Hq' : xequiv x (mkSt (sset st1 x v) (rebind_own o1 x) tr') (mkSt st2 o2 tr')).
+          { repeat split; cbn [st_store st_own st_trace].
+            - intros u. rewrite sset_sset_same. apply Hs.
+            - rewrite rebind_idem. exact Ho. }
+          destruct neg; apply IH; exact Hq'.
+      + destruct (accept W (IFilter f (EConst ANone)) v (mkSt st2 o2 tr1)) as [[b q']|]; [discriminate | exact I].
+  Qed.
+End FilterLoop.
+
+Lemma filter_shape_inv : forall body c s1 neg, filter_shape body = Some (c, s1, neg) -> body = orig_body c s1 neg.
+Proof.
+  intros body c s1 neg H. unfold filter_shape in H.
+  repeat match type of H with
+         | context [match ?t with _ => _ end] => destruct t; try discriminate
+         end; injection H as <- <- <-; reflexivity.
+Qed.
+
+Theorem filter_sound : forall W s s' q, (forall x, blind W x) -> rw_filter s = Some s' ->
+  exists x, res_rel x (exec_stmt W s q) (exec_stmt W s' q).
+Proof.
+  intros W s s' q Hb H. destruct s; try discriminate. destruct t as [x|]; try discriminate.
+  destruct it; try discriminate. exists x.
+  assert (Hcore : forall c f s1 neg, filter_test x c = Some f ->
+            res_rel x (exec_stmt W (SFor (TName x) (IPlain e) (orig_body c s1 neg)) q)
+                      (exec_stmt W (SFor (TName x) (IFilter f e) [s1]) q)).
+  { intros c f s1 neg Hft. rewrite !exec_SFor. cbn [isrc_expr src_items].
+    destruct (eval_in W e q) as [[itv tr1]|]; [|exact I]. destruct (items_of itv) as [items|]; [|exact I].
+    apply filter_loop; [assumption | apply Hb | apply xequiv_refl]. }
+  cbn [rw_filter] in H. destruct (filter_shape body) as [[[c s1] neg]|] eqn:Hsh; [|discriminate].
+  destruct (filter_test x c) as [f|] eqn:Hft; [|discriminate].
+  destruct (simple_stmt s1); [|discriminate]. injection H as <-.
+  rewrite (filter_shape_inv _ _ _ _ Hsh). apply (Hcore c f s1 neg Hft).
+Qed.
+
+(* full equality fails: the loop variable after the loop (F02-47) *)
+Theorem filter_refuted_loop_variable :
+  exists s s' q, rw_filter s = Some s' /\ exec_stmt (fun _ => test_world) s q <> exec_stmt (fun _ => test_world) s' q /\
+                 exec_stmt (fun _ => test_world) s q <> None.
+Proof.
+  exists (SFor (TName 1) (IPlain (ESeq KList [EConst (AInt 1); EConst (AInt 0)])) [SIf (EName 1) [SExpr (ECall 4 [EName 1])] []]).
+  eexists. exists (mkSt [] None []). split; [reflexivity|]. split; vm_compute; discriminate.
+Qed.
